@@ -1148,6 +1148,8 @@ func c13Tamper(c *Ctx, base c13Scn, s c13Sent, st c13Step, runV func(c13Scn, str
 		{"expired key, request before expiry", "@-5000", kk("@-4999", "0")}, {"expired key, request at expiry", "@-5000", kk("@-5000", "0")}, {"expired key, request after expiry", "@-5000", kk("@-5001", "0")},
 		{"expired key with validity, request before expiry", "@", kk("@+1", "@+100000")}, {"expired key with validity, after expiry", "@+2", kk("@+1", "@+100000")},
 		{"expiry 1", "0", kk("1", "0")}, {"no key", "@", nil},
+		{"valid_until_ts 2^63 (F62)", "@", kk("0", "9223372036854775808")}, {"valid_until_ts 2^64-1 (F62)", "@+1000", kk("0", "18446744073709551615")},
+		{"valid_until_ts 2^63, beyond the seven-day cap", "@+604810000", kk("0", "9223372036854775808")},
 		{"key of another server", "@", []c13Key5{{"other.example", st.keyid, st.label, "0", "@+3600000"}}},
 		{"key under another id", "@", []c13Key5{{s.o, "ed25519:zz", st.label, "0", "@+3600000"}}},
 		{"another public key under that id", "@", []c13Key5{{s.o, st.keyid, "K2", "0", "@+3600000"}}},
